@@ -70,6 +70,7 @@ func checkRandomnessReuse(r *kernel.Run, prop string, res *tResult) {
 
 	seen := map[string]usedVal{}
 	builderSeen := map[string]bool{}
+	firstAnswer := map[string]*gabi.ProofU{}
 	use := func(kind string, v *big.Int, what, proof, list string) {
 		if v == nil {
 			return
@@ -135,6 +136,31 @@ func checkRandomnessReuse(r *kernel.Run, prop string, res *tResult) {
 			case *gabi.ProofU:
 				secret := res.Creds[0].Led.Secret
 				use("rand:secretkey", new(big.Int).Sub(x.SResponse, new(big.Int).Mul(x.C, secret)), "randomizer of the secret key (ProofU)", id, listID)
+				// two answers of one builder: the two-transcript extractor (difference of responses divided by
+				// the difference of challenges) must fail for v' and for the user's shares of random-blind
+				// attributes as well; with fresh randomizers the division is exact with probability 2^-256
+				if p.SameBuilder != "" {
+					if prev := firstAnswer[p.SameBuilder]; prev != nil && prev.C.Cmp(x.C) != 0 {
+						dc := new(big.Int).Sub(prev.C, x.C)
+						exact := func(a, b *big.Int) bool {
+							if a == nil || b == nil {
+								return false
+							}
+							d := new(big.Int).Sub(a, b)
+							return new(big.Int).Mod(d, new(big.Int).Abs(dc)).Sign() == 0
+						}
+						if exact(prev.VPrimeResponse, x.VPrimeResponse) {
+							r.Violate(prop+":randomness-reused:rand:vprime", map[string]any{"kind": "rand:vprime"}, "%s: two issuance commitments of one builder used the same randomizer for v': the extractor recovers v' (and with it R_0^secret)", id)
+						}
+						for i, a := range prev.MUserResponses {
+							if exact(a, x.MUserResponses[i]) {
+								r.Violate(prop+":randomness-reused:rand:blind-share", map[string]any{"kind": "rand:blind-share"}, "%s: two issuance commitments of one builder used the same randomizer for the user's share of random-blind attribute %d", id, i)
+							}
+						}
+					} else if prev == nil {
+						firstAnswer[p.SameBuilder] = x
+					}
+				}
 				// one builder answering twice shows the same U by construction; across builders it must differ
 				if p.SameBuilder == "" || !builderSeen[p.SameBuilder] {
 					use("U", x.U, "issuance commitment U", id, listID)
